@@ -179,8 +179,8 @@ func (q quietStateable) Run(ctx context.Context) error {
 	<-ctx.Done()
 	return nil
 }
-func (q quietStateable) Stop()           {}
-func (q quietStateable) IsRunning() bool { return true }
+func (q quietStateable) Stop()            {}
+func (q quietStateable) IsRunning() bool  { return true }
 func (q quietStateable) GetState() string { return "Running" }
 func (q quietStateable) GetStateChan(ctx context.Context) <-chan string {
 	ch := make(chan string, 1)
@@ -233,12 +233,12 @@ func runCrash(o Opts) {
 	}
 	// 1. route sets at construction and at reload time (through NewConfig, and as a raw struct copy)
 	corpus := [][2][]routeSpec{
-		{{{"a", "/a"}, {"b", "/a"}}, {{"a", "/a"}}},                   // duplicate path at construction
-		{{{"a", "/a"}}, {{"a", "/a"}, {"b", "/a"}}},                   // duplicate path at reload time
-		{{{"a", "/a/{x}"}}, {{"a", "/a/{x}"}, {"b", "/a/{y}"}}},       // conflicting wildcards at reload time
-		{{{"a", "/"}}, {{"a", "a"}}},                                   // no leading slash at reload time
-		{{{"a", "/"}}, {{"a", "/{"}}},                                  // malformed wildcard at reload time
-		{{{"a", "GET /a"}, {"b", "POST /a"}}, {{"a", "GET  /a"}}},      // method patterns
+		{{{"a", "/a"}, {"b", "/a"}}, {{"a", "/a"}}},               // duplicate path at construction
+		{{{"a", "/a"}}, {{"a", "/a"}, {"b", "/a"}}},               // duplicate path at reload time
+		{{{"a", "/a/{x}"}}, {{"a", "/a/{x}"}, {"b", "/a/{y}"}}},   // conflicting wildcards at reload time
+		{{{"a", "/"}}, {{"a", "a"}}},                              // no leading slash at reload time
+		{{{"a", "/"}}, {{"a", "/{"}}},                             // malformed wildcard at reload time
+		{{{"a", "GET /a"}, {"b", "POST /a"}}, {{"a", "GET  /a"}}}, // method patterns
 	}
 	for _, c := range corpus {
 		for _, raw := range []bool{false, true} {
@@ -300,8 +300,12 @@ func runCrash(o Opts) {
 			func(h http.Header) httpserver.HandlerFunc { return headers.New(h) },
 			func(h http.Header) httpserver.HandlerFunc { return headers.NewWithOperations(headers.WithSet(h)) },
 			func(h http.Header) httpserver.HandlerFunc { return headers.NewWithOperations(headers.WithAdd(h)) },
-			func(h http.Header) httpserver.HandlerFunc { return headers.NewWithOperations(headers.WithSetRequest(h)) },
-			func(h http.Header) httpserver.HandlerFunc { return headers.NewWithOperations(headers.WithAddRequest(h)) },
+			func(h http.Header) httpserver.HandlerFunc {
+				return headers.NewWithOperations(headers.WithSetRequest(h))
+			},
+			func(h http.Header) httpserver.HandlerFunc {
+				return headers.NewWithOperations(headers.WithAddRequest(h))
+			},
 			func(h http.Header) httpserver.HandlerFunc {
 				var ks []string
 				for k := range h {
